@@ -76,6 +76,7 @@ type FuncContract struct {
 	File      string
 	Line      int
 	Requires  []Clause
+	Exits     []Clause // checked at every normal return; may name locals (their final values); never assumed by callers
 	Assumes   []Clause // unchecked assumptions at entry (machine-arithmetic bounds); never imposed on callers, always reported
 	Ensures   []Clause
 	Modifies  []*SExpr
@@ -159,7 +160,7 @@ var clauseKeywords = map[string]bool{
 	"loop": true, "inline": true, "mode": true, "recovers": true, "diverges": true, "trusted": true,
 	"nosafe": true, "use": true, "monitor": true, "ghost": true, "case": true, "secret": true,
 	"sink": true, "flag": true, "const": true, "protects": true, "invariant": true, "abstract": true,
-	"inlinecalls": true, "inst": true, "reveal": true, "shared": true, "ghostvar": true, "zerofact": true, "rows": true, "oracle": true, "row": true, "writeset": true,
+	"inlinecalls": true, "inst": true, "reveal": true, "shared": true, "ghostvar": true, "zerofact": true, "rows": true, "oracle": true, "row": true, "writeset": true, "exit": true,
 }
 
 func firstWord(s string) string {
@@ -402,6 +403,15 @@ func ParseContractFile(path string) (*ContractFile, error) {
 				return nil, fail(l, "assumes needs a function and a label")
 			}
 			curF.Assumes = append(curF.Assumes, c)
+		case w == "exit":
+			c, err := parseClause(l, rest)
+			if err != nil {
+				return nil, err
+			}
+			if curF == nil || c.Label == "" {
+				return nil, fail(l, "exit needs a function and a label")
+			}
+			curF.Exits = append(curF.Exits, c)
 		case w == "requires" || w == "ensures":
 			c, err := parseClause(l, rest)
 			if err != nil {
